@@ -152,6 +152,11 @@ func runC19(c *Ctx) {
 	parallel(nWS, 14, func(wi int) {
 		r := root.Fork(uint64(wi))
 		nf := r.Range(1, 3)
+		if wi%10 == 9 {
+			// a large workspace: far more symbols than a workspace/symbol answer holds (the answer is cut to the best-scored entries)
+			nf = r.Range(14, 36)
+			c.Count("large_workspaces", 1)
+		}
 		var files []c19File
 		fm := map[string]string{}
 		for k := 0; k < nf; k++ {
@@ -277,7 +282,7 @@ func runC19(c *Ctx) {
 	}
 	sort.Strings(kinds)
 	c.Set("declaration_kinds", kinds)
-	c.Finish("generated files (1-3 per workspace) with uniquely named top-level locals, global variables, global/local functions (statement and assignment forms), tables with "+
+	c.Finish("generated files (1-3 per workspace; every tenth workspace 14-36 files, several hundred symbols) with uniquely named top-level locals, global variables, global/local functions (statement and assignment forms), tables with "+
 		"function members in the constructor, t.f / t:m / localtable.f / a.b.c function statements, globals assigned inside blocks and annotated class tables; every planted "+
 		"declaration must appear in documentSymbol (any depth) with a well-formed range containing its declaring identifier, and globals/functions must be found by "+
 		"workspace/symbol under their exact name at that declaration. distinct_nontrivial = distinct (file text, declaration) checked", 200)
